@@ -271,6 +271,5 @@ OpResult run_slot(const Scn &s, OpSpec &op, int slot, const char *opname, HangPo
   g_ctx.recorded[slot] = r.sr.decisions;
   g_stats.absorb(r.sr);
   if (op.fin) { g_stats.add("fault.short_read", op.fin->short_reads); }
-  if (op.fout) { g_stats.add("fault.short_write", op.fout->short_writes); }
   return r;
 }
